@@ -132,6 +132,10 @@ func GenNF5(t *rapid.T) NF5Packet {
 		rapid.IntRange(1, 30),
 		rapid.IntRange(0, 40),
 		rapid.SampledFrom([]int{255, 256, 1365, 65535}),
+		// counts beyond 255 whose low octet alone would be a legal count (and 0 / 31 next to it)
+		rapid.Custom(func(t *rapid.T) int {
+			return rapid.SampledFrom([]int{1, 1, 2, 0x7f, 0x80, 0xff}).Draw(t, "counthi")<<8 | rapid.IntRange(0, 31).Draw(t, "countlo")
+		}),
 	).Draw(t, "count"))
 	p.SysUpTime = u32.Draw(t, "uptime")
 	p.UnixSecs = u32.Draw(t, "secs")
